@@ -37,7 +37,8 @@ func parqMain(args []string) {
 			}
 		}
 		call := func(b *recvBox, k int, q string) (string, bool) {
-			if shared {
+			// (Transfer leaves its receiver alone but fills its ARGUMENT: every caller brings a destination of its own)
+			if shared && !strings.HasPrefix(q, "Transfer") {
 				return invokePrepared(b, preps[k])
 			}
 			return invoke(b, q)
